@@ -8,7 +8,7 @@ EOS = "▪"
 RULE = (
     "case = (generated grammar, object kind in {Earley, rescaled Earley, IncrementalCKY, EarleyLM, rescaled EarleyLM, "
     "CKYLM, BoolCFGLM/earley, BoolCFGLM/cky}, a history of 20-60 operations (p_next / next-token weights / string weight / "
-    "chain-rule call / chart / clear_cache) over nested, sibling and repeated prefixes of a common string). After every "
+    "chain-rule call / chart / clear_cache / a transformation or derived-object construction applied to every reachable grammar) over nested, sibling and repeated prefixes of a common string). After every "
     "query the answer of the used object is compared, as a function over the vocabulary (missing = zero, tol 1e-9), with "
     "the answer of a fresh object built from a freshly built equal grammar; before/after every operation the rules "
     "(identity and content), vocabulary, nonterminal set and start symbol of every grammar reachable from the object are "
@@ -28,6 +28,9 @@ ANCHORS = [
     "genlm.grammar.cfg:CFG.spawn", "genlm.grammar.cfg:CFG.trim", "genlm.grammar.cfg:CFG.prefix_grammar",
 ]
 KINDS = ["Earley", "rescaled.Earley", "IncrementalCKY", "EarleyLM", "rescaled.EarleyLM", "CKYLM", "BoolCFGLM/earley", "BoolCFGLM/cky"]
+TRANSFORMS = ["trim", "cotrim", "cnf", "prefix_grammar", "renumber", "nullaryremove", "unaryremove", "unarycycleremove",
+              "binarize", "separate_start", "separate_terminals", "add_EOS", "locally_normalize", "treesum", "derivative",
+              "to_bytes", "map_values", "rhs", "materialize", "truncate_length", "compose-string", "spawn-add"]
 API_Q = "lm.p_next(ctx) on a used object vs. on a fresh object"
 API_P = "cfg.rules / cfg.V / cfg.S before and after queries"
 
@@ -47,7 +50,7 @@ def gates(tier):
     g = {
         "min_decided": {API_Q: 8000 * k, API_P: 8000 * k},
         "shapes": {f"kind:{kd}": 10 * k for kd in KINDS} | {"history:nontrivial": 100 * k, "op:clear_cache": 200 * k,
-                                                            "op:requery-shorter": 200 * k, "op:sibling": 200 * k},
+                                                            "op:requery-shorter": 200 * k, "op:sibling": 200 * k, "op:transform": 100 * k},
         "min_hashseeds": 2,
     }
     return g
@@ -86,6 +89,8 @@ def gen_case(rng, spec):
             ops.append(["chart", list(c)])
         elif r < 0.88:
             ops.append(["clear"])
+        elif r < 0.93:
+            ops.append(["transform", rng.choice(TRANSFORMS)])
         elif ops:
             ops.append(rng.choice(ops))
     return {"g": {k: g[k] for k in ("S", "V", "rules")}, "kind": kind, "ops": ops}
@@ -159,6 +164,45 @@ def query(kind, obj, op, c, V):
     raise KeyError(op)
 
 
+def apply_transform(name, cfg):
+    "transformations and derived objects: results are discarded, only their (absent) side effects matter"
+    from genlm.grammar import add_EOS, locally_normalize
+
+    if len(cfg.rules) > 400:
+        return None
+    V = sorted(cfg.V, key=repr)
+    if name in ("trim", "cotrim", "renumber", "nullaryremove", "unaryremove", "unarycycleremove", "binarize", "separate_start",
+                "separate_terminals", "treesum"):
+        return getattr(cfg, name)()
+    if name in ("cnf", "prefix_grammar", "rhs"):
+        return getattr(cfg, name)
+    if name == "add_EOS":
+        return add_EOS(cfg, eos="<<eos2>>")
+    from genlm.grammar import Float
+
+    if name == "locally_normalize":
+        return locally_normalize(cfg) if cfg.R is Float else None
+    if name == "derivative":
+        return cfg.derivative(V[0]) if V else None
+    if name == "to_bytes":
+        return cfg.to_bytes() if all(isinstance(x, str) for x in V) else None
+    if name == "map_values":
+        return cfg.map_values((lambda w: w * 0.5) if cfg.R is Float else (lambda w: w), cfg.R)
+    if name == "materialize":
+        return cfg.materialize(1) if len(cfg.rules) < 40 else None
+    if name == "truncate_length":
+        return cfg.truncate_length(1) if len(cfg.rules) < 40 else None
+    if name == "compose-string":
+        return (cfg @ tuple(V[:1])) if len(cfg.rules) < 60 else None
+    if name == "spawn-add":
+        # a spawned grammar is independent: growing it must not touch the original's vocabulary or rules
+        new = cfg.spawn()
+        new.V.add("<<fresh-terminal>>")
+        new.add(cfg.R.one, cfg.S, "<<fresh-terminal>>")
+        return new
+    raise KeyError(name)
+
+
 def agree(a, b, tol=1e-9):
     if isinstance(a, dict):
         return isinstance(b, dict) and all(abs(a[t] - b[t]) <= tol * max(1.0, abs(b[t])) for t in a)
@@ -175,9 +219,18 @@ def run_case(case, ctx):
     ok, cfg = ctx.call(API_Q, case, lib.build_cfg, g, "Float")
     if not ok:
         return
+    # constructing a parser / LM (add_EOS, map_values, prefix grammar, normal forms ...) must not
+    # change the grammar it is given
+    before_ctor = snap(cfg)
     ok, obj = ctx.call(API_Q, case, build, kind, cfg)
     if not ok:
         return
+    after_ctor = snap(cfg)
+    if before_ctor == after_ctor:
+        ctx.held(API_P)
+    else:
+        what = [n for n, x, y in zip(("rules-identity", "n_rules", "rules", "V", "S", "N"), before_ctor, after_ctor) if x != y]
+        ctx.violated(API_P, f"{kind}/grammar-mutated-by-constructor:{'+'.join(what)}", case, {"changed": what})
     if case.get("long"):
         return run_long(case, ctx, cfg, obj, V)
     ops = case["ops"]
@@ -216,6 +269,11 @@ def run_case(case, ctx):
         if op[0] == "clear":
             ctx.shape["op:clear_cache"] += 1
             ok, _ = ctx.call(API_Q, c2, obj.clear_cache)
+        elif op[0] == "transform":
+            # a transformation / derived-object construction applied to every reachable grammar in between queries
+            ctx.shape["op:transform"] += 1
+            for _path, gram in watched:
+                ok, _ = ctx.call(API_P, c2, apply_transform, op[1], gram, mech_prefix=f"transform:{op[1]}")
         else:
             ok, have = ctx.call(API_Q, c2, query, kind, obj, op[0], op[1], V)
             if ok:
